@@ -136,6 +136,9 @@ func EmbedX(l, x *core.Lane, kind int, parts [][]byte, surround bool, more ...*c
 			if y.Chance(1, 3) {
 				ho.ManyItems = []int{1, 7, 60, 150, 200, 260}[y.Intn(6)]
 			}
+			if y.Chance(1, 4) {
+				ho.TiffHdrOff = []int{1, 3, 5, 9, 13}[y.Intn(5)] // header offset 0, 2, 4, 8, 12
+			}
 		}
 		h := DrawHEIFOpts(l, parts[0], surround, ho)
 		e.Bytes = h.Bytes
